@@ -401,8 +401,17 @@ func runC13(c *Ctx) {
 			continue
 		}
 		if addrClass(fc.Call.Args[1]) != "dst" {
-			d, ok := origin(fc.Call.Args[1]).(*ssa.Call)
-			if !ok || !d.Call.IsInvoke() || d.Call.Method.Name() != "DestinationAddr" || !sameOrigin(d.Call.Value, ssa.Value(netIn.Params[1])) {
+			var d *ssa.Call
+			ok := false
+			okSame := false
+			// a delivery helper shared with the loopback path: its parameter is what this function passes
+			withRoot(netIn, func() {
+				d, ok = origin(fc.Call.Args[1]).(*ssa.Call)
+				if ok && d.Call.IsInvoke() {
+					okSame = sameOrigin(d.Call.Value, ssa.Value(netIn.Params[1]))
+				}
+			})
+			if !ok || !d.Call.IsInvoke() || d.Call.Method.Name() != "DestinationAddr" || !okSame {
 				o.Fail(in.Pos(), "the socket is looked up by something else than the datagram's destination address")
 			}
 		}
@@ -1023,7 +1032,9 @@ func runC01(c *Ctx) {
 				o.Fail(in.Pos(), "the receiving socket is not the result of the table lookup")
 				continue
 			}
-			d, ok := origin(fc.Call.Args[1]).(*ssa.Call)
+			var d *ssa.Call
+			ok := false
+			withRoot(f, func() { d, ok = origin(fc.Call.Args[1]).(*ssa.Call) })
 			isDst := ok && (d.Call.IsInvoke() && d.Call.Method.Name() == "DestinationAddr" || callName(d) == "(*vnet.chunkUDP).DestinationAddr")
 			if !isDst {
 				o.Fail(in.Pos(), "the socket is looked up by something else than the datagram's destination address")
